@@ -105,7 +105,7 @@ class GenericSinkTermEncoder(TermEncoder):
 
 def namespace_declarations(store: GenericStatementSink, stream: Stream) -> None:
     for prefix, namespace in store.namespaces:
-        stream.namespace_declaration(name=prefix, iri=str(namespace))
+        stream.namespace_declaration(name=prefix, iri=namespace._iri)
 
 
 @singledispatch
